@@ -128,6 +128,14 @@ var properties = map[string]*Property{
 			Params:     map[string]string{"prop": "C01"},
 			Quick:      Tier{Runs: 12000, BudgetS: 120},
 			Thorough:   Tier{Runs: 600000, BudgetS: 1500},
+		}, {
+			Name: "pipeline-conc", Property: "C01", Pkg: "./internal/verifsim/mechsim", Test: "TestVerifRuleConc",
+			Dirs:       append([]string{"internal/verifsim/mechsim"}, exportDirs...),
+			Files:      []string{"zz_verif_c17_test.go", "zz_verif_ruleconc_test.go"},
+			Race:       true,
+			Instrument: []string{"internal/rules/rule_impl.go:yields", "internal/rules/composite_subject_handler.go:yields"},
+			Quick:      Tier{Runs: 1500, BudgetS: 100},
+			Thorough:   Tier{Runs: 80000, BudgetS: 1200},
 		}},
 		Rule: "one case = one seeded pipeline (1-3 authenticators of all types incl. fallback variants, 0-3 authorizers/contextualizers and 0-2 finalizers with true/false/erroring `if` conditions and continue-on-error, 0-3 error handlers default/redirect/www_authenticate with applicable/non-applicable/erroring conditions) loaded through the real parser and processor, 1-3 requests with seeded credentials per authenticator kind and a per-party fault plan (status, refuse, reset, timeout, delay, duplicate, panic), sent through one of the three real entry points. Non-trivial = a request whose ground truth is 'must not be allowed'; distinct = distinct (entry point, pipeline, credentials, faults).",
 		Real: []string{"config loader, mechanism catalogue (all mechanism types), rule parser, rule factory, repository, executor", "decision HTTP handler chain", "proxy handler chain incl. httputil.ReverseProxy and http.Transport (dialer rewritten to simnet.DialContext)", "Envoy ext_authz gRPC server with its interceptor chain over bufconn", "CEL conditions, error handlers, HTTP/gRPC error translators, recovery"},
@@ -137,7 +145,7 @@ var properties = map[string]*Property{
 			"only the implication 'positive answer => whole pipeline succeeded' (and 'upstream hit => positive and succeeded') is judged; unexpected denials are counted as a reach probe only",
 			"requests with malformed credentials are generated but not judged",
 		},
-		MustBePositive: []string{"pipeline-sim/fault-free-positive", "pipeline-sim/positive:decision", "pipeline-sim/positive:proxy", "pipeline-sim/positive:envoy", "pipeline-sim/probe:panic-injected-on-request-path"},
+		MustBePositive: []string{"pipeline-sim/fault-free-positive", "pipeline-sim/positive:decision", "pipeline-sim/positive:proxy", "pipeline-sim/positive:envoy", "pipeline-sim/probe:panic-injected-on-request-path", "pipeline-conc/concurrent-requests"},
 	},
 	"C04": {
 		ID: "C04",
